@@ -2,6 +2,8 @@
 R-C18-1 accessors hold no derived state; R-C18-2 no persistent Python state written at call time;
 R-C18-4 the native work buffers carry nothing between calls."""
 import ast
+
+from ..model import call_name
 import os
 
 from ..cast import CFile, ex, show, strip, poly_of, Poly
@@ -72,9 +74,8 @@ def run(repo, rep, tier):
     entries = [fi for fi in repo.all_funcs() if is_entry(fi)]
     by_sink = {}
     for fi in entries:
-        for (r, rp), eff in eng.summ[fi.qualname].effects.items():
-            if r.startswith("g:"):
-                by_sink.setdefault((eff.file, eff.func, eff.construct, r), []).append((fi, eff))
+        for gk, eff in eng.summ[fi.qualname].gsites.items():
+            by_sink.setdefault(gk, []).append((fi, eff))
     for (f, fn, cons, root), lst in sorted(by_sink.items()):
         fi, eff = lst[0]
         reach = sorted({x[0].short for x in lst})
@@ -110,6 +111,49 @@ def run(repo, rep, tier):
            "effects on module-level roots enumerated from interprocedural summaries")
     rep.analysed.update({"functions": len(eng.funcs), "entry_points": len(entries), "fixpoint_iterations": iters,
                          "sinks_examined": eng.sinks, "accessor_classes": [c.name for c in acc_classes]})
+
+    # ---- R-C18-5: interpreter-wide settings ------------------------------------------------------------
+    rep.rule("R-C18-5", "call-time changes of interpreter-wide settings (warning filters, numpy error state, xarray options, "
+                        "environment, locale, RNG seed) happen only inside the context manager that restores them")
+    RESTORERS = {   # mutator (resolved dotted name suffix) -> context managers that undo it on exit
+        "warnings.filterwarnings": ("catch_warnings",), "warnings.simplefilter": ("catch_warnings",), "warnings.resetwarnings": ("catch_warnings",),
+        "seterr": ("errstate",), "seterrcall": ("errstate",), "set_printoptions": ("printoptions",),
+        "set_options": (), "setlocale": (), "chdir": (), "random.seed": (), "basicConfig": (), "matplotlib.use": (), "setrecursionlimit": (),
+    }
+    n_glob = 0
+    for fi in repo.all_funcs():
+        for n in ast.walk(fi.node):
+            hit = None
+            if isinstance(n, ast.Expr) and isinstance(n.value, ast.Call):
+                cn = call_name(n.value)
+                for k_ in RESTORERS:
+                    if cn == k_ or cn.endswith("." + k_) or (("." not in k_) and cn.split(".")[-1] == k_):
+                        hit = (k_, n.value)
+            elif isinstance(n, (ast.Assign, ast.AugAssign, ast.Delete)):
+                tg = n.targets if isinstance(n, (ast.Assign, ast.Delete)) else [n.target]
+                for t in tg:
+                    tt = ast.unparse(t)
+                    if tt.startswith("os.environ[") or ".rcParams[" in tt or tt.startswith("sys.path") or tt.startswith("sys.modules["):
+                        hit = ("environment / rcParams / sys state", n)
+            if hit is None:
+                continue
+            n_glob += 1
+            name, node = hit
+            ctxs = RESTORERS.get(name, ())
+            p_ = getattr(n, "_parent", None)
+            inside = False
+            while p_ is not None and p_ is not fi.node:
+                if isinstance(p_, ast.With) and any(isinstance(it.context_expr, ast.Call) and call_name(it.context_expr).split(".")[-1] in ctxs
+                                                     for it in p_.items):
+                    inside = True
+                p_ = getattr(p_, "_parent", None)
+            if inside:
+                rep.ok("R-C18-5", f"{fi.file}:{n.lineno} {fi.short}", ast.unparse(n)[:80], f"inside `with {ctxs[0]}()`: restored on exit")
+            else:
+                rep.fail("R-C18-5", fi.file, n.lineno, fi.qualname, ast.unparse(n)[:100],
+                         f"{name} changes an interpreter-wide setting at call time outside a restoring context manager: every later "
+                         "operation in the process behaves differently once this has run", anchor=f"global-setting:{name}")
+    rep.floor("R-C18-5", "call-time global-setting sites examined", n_glob, 2)
 
     # ---- R-C18-3 (shared with R-C17-1): an operation that edits its inputs makes later results depend on it ----
     rep.rule("R-C18-3", "no public operation modifies the object it was called on or its arguments (same obligations as "
